@@ -47,6 +47,9 @@ def _issue_terms(ctx, cls):
 
 
 def run(ctx: Context, col) -> None:
+    from .common import Parts
+
+    part = Parts()
     names = ["DeMoorSingleProductPerishable", "HendrixTwoProductPerishable", "MirjaliliPlateletPerishable"]
     issue = {}
     for n in names:
@@ -67,10 +70,11 @@ def run(ctx: Context, col) -> None:
         ok = issue[n] == ref
         col.add("R15.2", f"{n}._issue_one_step", owner.module.relpath, fn.lineno, ok,
                 "term-equal to De Moor's copy" if ok else "differs from De Moor's copy of the same kernel", text="clone agreement")
-    _demoor(ctx, col)
-    _hendrix(ctx, col)
-    _mirjalili(ctx, col)
-    _forest(ctx, col)
+    part(_demoor, ctx, col)
+    part(_hendrix, ctx, col)
+    part(_mirjalili, ctx, col)
+    part(_forest, ctx, col)
+    part.finish()
     col.floor("R15.1", 3)
     col.floor("R15.2", 6)
     col.floor("R15.3", 4)
